@@ -67,6 +67,10 @@ struct ExecCfg {
 
 RunResult run_plan(const Plan &plan, const ExecCfg &cfg);
 
+// C18: the object every thread of a case takes frames from (OP_ADOPT); built before the threads start, never written afterwards
+void donor_make(uint64_t seed); // seed 0: no donor
+void donor_drop();
+
 // pieces reused by the specialised modes
 std::string classify_current_exception(std::string *what = nullptr); // call inside catch(...)
 std::vector<uint8_t> read_real_file(const std::string &path);
